@@ -79,7 +79,13 @@ def reqs_history(case):
 
 def judge_history(ctx, case, resp):
     r = resp[0]
-    if "panic" in r or "died" in r or "timeout" in r:
+    if "timeout" in r and "panic" not in r and "died" not in r:
+        # no answer within the request budget: a generated `for` whose domains multiply to tens of thousands of iterations is slow (every
+        # iteration copies the list of the results so far for `partial`), not impure; whether evaluation terminates is C05's subject, which
+        # confirms a time-out with isolated re-runs and a CPU-time budget. Nothing is judged here.
+        ctx.note(key=h(case), labels=["timeout: not judged (slow generated expression)"])
+        return None
+    if "panic" in r or "died" in r:
         ctx.note(key=h(case), labels=["crash(C05)"])
         return Fail("C13/crash@%s" % r.get("location", "?"), "history crashed: %r" % (r,))
     if "initial" not in r:
